@@ -17,7 +17,6 @@ NOT_APPLICABLE = {
  "C32": "Assembler layout fixpoint over encodings produced by the table-driven assembler (C15); existence of a layout is a search property.",
  "C39": "Dependency-graph slicing over arbitrary loop-free IR graphs with path constraints; whole-program analysis relying on the z3 translator and symbolic execution of lifted code.",
  "C41": "Dynamic symbolic execution of x86 programs under a jitter with a solver in the loop; whole-system across Python, C and z3.",
- "C44": "Loading maps sections into the VmMngr C extension from parsed PE/ELF objects (C42/C43 serialisers); cross-language, file-format driven.",
  "C49": "Faulting-instruction atomicity is a property of generated C/LLVM/Python block code and the C execution loop across back ends; no single function contract carries it.",
 }
 
